@@ -140,6 +140,10 @@ func (c *AttackCtx) attackerSign(el *etree.Element, variant int) {
 		spec.Embed = &la
 	}
 	spec.AfterIssuer = variant%8 < 4
+	before := map[*etree.Element]bool{}
+	for _, ch := range el.ChildElements() {
+		before[ch] = true
+	}
 	if err := SignInPlace(el, spec); err == nil {
 		c.note("attacker-signed")
 		// KeyInfo lies outside SignedInfo: a second X509Certificate (a TRUSTED one) can be put beside the
@@ -147,8 +151,8 @@ func (c *AttackCtx) attackerSign(el *etree.Element, variant int) {
 		// not made by a trusted key
 		if k := (variant / 8) % 3; k != 0 && len(c.SP.Store) > 0 && spec.Embed != nil {
 			for _, sg := range el.ChildElements() {
-				if sg.Tag != "Signature" {
-					continue
+				if sg.Tag != "Signature" || before[sg] {
+					continue // only the attacker's OWN new signature is dressed up
 				}
 				if xd := findTag(sg, "X509Data"); xd != nil {
 					if first := findTag(xd, "X509Certificate"); first != nil {
